@@ -176,6 +176,57 @@ def unsupported(rng):
     return HDR + gd.to_xml(n) + _rect(rng) + "</svg>", "unsupported_" + n.tag
 
 
+def enumerated_cycles():
+    """Every small reference-cycle layout, deterministically (the random classes above sample the same
+    space with geometry and noise around it): -> list of (document, label)."""
+    import random as _r
+
+    out = []
+    rect = '<rect x="5" y="5" width="20" height="10" fill="navy"/>'
+    # gradient href cycles: length x entry chain (none / one / two links) x where the entry is declared x who is painted with
+    for n in (1, 2, 3):
+        gs = [f'<linearGradient id="g{i}" xlink:href="#g{(i + 1) % n}">' + ('<stop offset="0" stop-color="red"/>' if i % 2 == 0 else "") + "</linearGradient>" for i in range(n)]
+        for entry in ("", "e0", "e1"):
+            for pos in (("first", "last", "middle") if entry else ("none",)):
+                e = ""
+                if entry:
+                    e = f'<linearGradient id="e0" xlink:href="#g{n - 1}"/>'
+                    if entry == "e1":
+                        e = '<linearGradient id="e1" xlink:href="#e0"/>' + e if pos != "last" else e + '<linearGradient id="e1" xlink:href="#e0"/>'
+                seq = list(gs)
+                if pos == "first":
+                    seq = [e] + seq
+                elif pos == "last":
+                    seq = seq + [e]
+                elif pos == "middle":
+                    seq.insert(max(1, len(seq) // 2), e)
+                for fill in (("g0",) if not entry else ("g0", entry)):
+                    for tf in ("", ' transform="translate(3 4)"'):
+                        out.append((HDR + "<defs>" + "".join(seq) + "</defs>" + f'<rect x="5" y="5" width="30" height="20"{tf} fill="url(#{fill})"/></svg>',
+                                    f"gradient_cycle_{n}_enum_{entry or 'noentry'}_{pos}_{fill}"))
+    # use cycles: length x what leads into the cycle x white space in one href
+    for n in (1, 2, 3):
+        for entry in ("none", "icon_first", "icon_last", "use_first", "wrapped"):
+            for ws in ("", " "):
+                parts = [f'<g id="g{i}">{rect}<use xlink:href="#g{(i + 1) % n}{ws if i == 0 else ""}" x="{i}"/></g>' for i in range(n)]
+                icon = f'<g id="icon">{rect}<use xlink:href="#g{n - 1}"/></g>'
+                if entry == "icon_first":
+                    parts.insert(0, icon)
+                elif entry == "icon_last":
+                    parts.append(icon)
+                elif entry == "use_first":
+                    parts.insert(0, f'<use id="e0" xlink:href="#g{n - 1}"/>')
+                body = "".join(parts)
+                if entry == "wrapped":
+                    body = f'<g id="wrap">{body}</g>'
+                out.append((HDR + body + "</svg>", f"use_cycle_{n}_enum_{entry}{'_ws' if ws else ''}"))
+    # clip-path cycles
+    for n in (1, 2, 3):
+        cps = "".join(f'<clipPath id="c{i}" clip-path="url(#c{(i + 1) % n})">{rect}</clipPath>' for i in range(n))
+        out.append((HDR + f"<defs>{cps}</defs>" + '<rect x="1" y="1" width="40" height="40" clip-path="url(#c0)"/></svg>', f"clip_cycle_{n}_enum"))
+    return out
+
+
 KINDS = (use_cycle, use_cycle, clip_cycle, gradient_cycle, gradient_cycle, dangling, malformed, malformed, deep, wide_dag, unsupported)
 
 
